@@ -15,15 +15,19 @@ func init() {
 	register(&propDef{
 		ID:       "C07",
 		Title:    "Packets the proxy builds decode as intended by an independent vanilla decoder",
-		Patterns: []string{"./pkg/edition/java/proto/packet/tablist/playerinfo", "./pkg/edition/java/proto/util"},
-		Run:      runC07,
+		Patterns: []string{"./pkg/edition/java/proto/packet/...", "./pkg/edition/java/proto/state", "./pkg/edition/java/proto/version", "./pkg/edition/java/proto/util",
+			"./pkg/edition/java/proxy/crypto", "./pkg/edition/java/profile", "./pkg/gate/proto"},
+		Run: runC07,
 		Rule: "the two layout facts the property statement itself pins, no vanilla decoder being available: (1) canonical action order — in Upsert.Encode the per-entry action payloads are " +
 			"emitted by ranging over the canonical table UpsertActions (filtered by membership in the packet's ActionSet on the ContainsAction==true edge), never over the caller-supplied " +
 			"ActionSet; the canonical table is initialised in the protocol's order (add, init-chat, game-mode, listed, latency, display-name, list-order, hat); Upsert.Decode rebuilds ActionSet " +
 			"from that table before ranging over it (sibling agreement); the action bit set is indexed by the same table; (2) the 1.7 byte-array length prefix is a 2-byte short on both the " +
-			"writing and the reading side (shared with C03).",
+			"writing and the reading side (shared with C03), and the extended Forge short places every value bit where the reader takes it from (P6b bit-slice provenance); " +
+			"(3) reference layouts (P7+P8): for every registered packet type and every protocol it is registered for, the regular language of field-token sequences its Encode can emit " +
+			"(determinised, minimised, canonically numbered) equals the one recorded in reference/packet_wire.json from the pinned tree — layouts of released protocol versions are immutable.",
 		Explanation: "Decides: order of action data regardless of API order, reader/writer agreement on that order, the 1.7 array prefix width. " +
-			"Does not decide: any other field layout against vanilla (no independent decoder on disk).",
+			"Reference layouts decide that no released (type, protocol) layout drifts (version-gate slips, added/dropped/reordered fields); they are as right as the pinned tree is — " +
+			"no independent vanilla decoder exists on disk, so a layout that is already wrong at the pinned commit is not found by (3).",
 		Fixtures: []string{"provenance"},
 		Variants: []Variant{
 			{Name: "encode-api-order", File: pkgPlayerinfo + "/upsert.go",
@@ -34,6 +38,10 @@ func init() {
 				Old: "\t\tUpdateListedAction,\n\t\tUpdateLatencyAction,\n", New: "\t\tUpdateLatencyAction,\n\t\tUpdateListedAction,\n", Expect: "canonical-table"},
 			{Name: "decode-keeps-stale-set", File: pkgPlayerinfo + "/upsert.go",
 				Old: "\tu.ActionSet = nil\n\tfor i, action := range UpsertActions {", New: "\tfor i, action := range UpsertActions {", Expect: "decode-rebuilds"},
+			{Name: "login-success-flag-one-version-too-long", File: "pkg/edition/java/proto/packet/login.go",
+				Old:    "c.Protocol == version.Minecraft_1_20_5.Protocol || c.Protocol == version.Minecraft_1_21.Protocol",
+				New:    "c.Protocol >= version.Minecraft_1_20_5.Protocol && c.Protocol <= version.Minecraft_1_21_2.Protocol",
+				Expect: "reference-wire:packet.ServerLoginSuccess"},
 			{Name: "forge-short-reader-keeps-marker", File: "pkg/edition/java/proto/util/reader.go",
 				Old: "\t\tlow = low & 0x7FFF\n", New: "", Expect: "forge-short-layout:value-bits-15-22"},
 			{Name: "forge-short-writer-shift-16", File: "pkg/edition/java/proto/util/writer.go",
@@ -223,6 +231,7 @@ func runC07(c *Ctx) {
 	// (2) extended Forge short: both sides 2 bytes (shared with C03)
 	checkExtendedForgeShort(c, "extended-short")
 	checkForgeShortLayout(c, "forge-short-layout")
+	checkWireGolden(c, "reference-wire")
 }
 
 // checkExtendedForgeShort: the extended short's masks are 16-bit (low = v & 0x7FFF | 0x8000 on the
